@@ -326,8 +326,10 @@ static gd_entry_t *_GD_Add(DIRFILE *restrict D,
     E->flags |= GD_EN_EARLY;
 
   /* Set meta indices */
-  if (P != NULL)
+  if (P != NULL) {
     E->e->n_meta = -1;
+    E->e->p.parent = P;
+  }
 
   /* Validate entry and add auxiliary data */
   switch(entry->field_type) {
